@@ -26,7 +26,8 @@ def main():
     E = Engine(mode='native', inputs=payload.get('inputs') or {})
     res = {'failed': [], 'passed': [], 'error': None}
     try:
-        E.explore(task.fn, **(payload.get('case') or {}))
+        from pyvc.api import dec_case
+        E.explore(task.fn, **(dec_case(payload.get('case') or {})))
         for r in E.results:
             (res['passed'] if r['status'] == 'discharged' else res['failed']).append(r['label'])
     except BaseException as e:
